@@ -1235,14 +1235,31 @@ func (c *Ctx) c13Captcha(f *ircFacts) {
 				}
 			}
 			if be, ok := ast.Unparen(fct.Expr).(*ast.BinaryExpr); ok && be.Op == token.GTR && !fct.Val {
-				if strings.Contains(astx.Str(be.X), "LastActivity") {
-					age = true
+				// <session>.LastActivity.Sub(<issue time rebuilt from the token>) > limit: the later instant is the receiver
+				if call, ok := ast.Unparen(be.X).(*ast.CallExpr); ok && len(call.Args) == 1 {
+					if fn := astx.Callee(info, call); fn != nil && fn.FullName() == "(time.Time).Sub" {
+						resolve := func(e ast.Expr) ast.Expr {
+							if d := uniqueDef(info, fi.Node(), e); d != nil {
+								return ast.Unparen(d)
+							}
+							return ast.Unparen(e)
+						}
+						recv := resolve(call.Fun.(*ast.SelectorExpr).X)
+						arg := resolve(call.Args[0])
+						se, isSel := recv.(*ast.SelectorExpr)
+						ac, isCall := arg.(*ast.CallExpr)
+						if isSel && se.Sel.Name == "LastActivity" && isCall {
+							if af := astx.Callee(info, ac); af != nil && af.Pkg() != nil && af.Pkg().Path() == "time" && strings.HasPrefix(af.Name(), "Unix") {
+								age = true
+							}
+						}
+					}
 				}
 			}
 		}
 		r.Check(mac, "C13.E11", fi.Name(), "accepts only a token with a valid MAC", pos, "dominated by hmac.Equal(...)", "a captcha token is accepted without its MAC having been verified with hmac.Equal")
 		r.Check(prefix, "C13.E11", fi.Name(), "accepts only solved challenges", pos, "dominated by HasPrefix(purpose, \"okay:\")", "a captcha token is accepted without the okay: purpose prefix (an unsolved challenge can be replayed)")
-		r.Check(age, "C13.E11", fi.Name(), "accepts only recent challenges", pos, "dominated by the age test", "a captcha token is accepted regardless of its age")
+		r.Check(age, "C13.E11", fi.Name(), "accepts only recent challenges", pos, "dominated by !(<session>.LastActivity.Sub(<issue time>) > limit)", "a captcha token is accepted regardless of its age (no age test, or the operands of the subtraction are swapped so that the difference is never positive)")
 	}
 	r.Check(n > 0, "C13.E11", fi.Name(), "has an accepting return", c.P.Pos(fi.Node().Pos()), "found", "verifyCaptchaNonEmpty never accepts")
 	// the token's issue time is decoded the way the challenge writers encode it
